@@ -227,4 +227,276 @@ theorem C19_wire_parameters : Facts.locatorDelta = 5 ∧ Facts.locatorMaxInitial
 example : verifyOnlyLocator { cfg := mainCfg 144 [] } = [900003, 900001] := C19_verify_mainnet _ 144 [] rfl
 example : removeDuplicateHashes [7, 3, 7, 3, 1] = [7, 3, 1] := by decide
 
+/-! ### membership: what a locator can contain -/
+
+/-- what an entry of a branch locator is: a header the branch's chain holds at that height (or the tip of a
+    height-0 branch), or a fork point of the split table. -/
+def GoodEntry (r : Repo) (bi : Nat) (splits : List Split) : HH × Bool → Prop
+  | ((h, id), true) => (∃ d, r.at bi h = some d ∧ d.hdr.id = id) ∨
+      (h = 0 ∧ (r.br bi).height = 0 ∧ ∃ l, (r.br bi).last? = some l ∧ l.hdr.id = id)
+  | ((h, id), false) => ∃ s ∈ splits, s.height = h ∧ s.before = id
+
+theorem splitsBetween_mem (splits : List Split) (added : List Nat) (height prevHeight : Int) :
+    ∀ e ∈ (splitsBetween splits added height prevHeight).1, ∃ s ∈ splits, s.height = e.1 ∧ s.before = e.2 := by
+  unfold splitsBetween
+  have : ∀ (l : List (Split × Nat)) (acc : List HH × List Nat),
+      (∀ x ∈ l, x.1 ∈ splits) → (∀ e ∈ acc.1, ∃ s ∈ splits, s.height = e.1 ∧ s.before = e.2) →
+      ∀ e ∈ (l.foldl (fun (acc : List HH × List Nat) (x : Split × Nat) =>
+        if !acc.2.contains x.2 && height < x.1.height && prevHeight ≥ x.1.height then (acc.1 ++ [(x.1.height, x.1.before)], acc.2 ++ [x.2])
+        else acc) acc).1, ∃ s ∈ splits, s.height = e.1 ∧ s.before = e.2 := by
+    intro l
+    induction l with
+    | nil => intro acc _ h; exact h
+    | cons x rest ih =>
+      intro acc hl hacc
+      simp only [List.foldl_cons]
+      apply ih _ (fun y hy => hl y (List.mem_cons_of_mem _ hy))
+      split
+      · intro e he
+        simp only [List.mem_append, List.mem_singleton] at he
+        rcases he with he | rfl
+        · exact hacc e he
+        · exact ⟨x.1, hl x (List.mem_cons_self ..), rfl, rfl⟩
+      · exact hacc
+  intro e he
+  exact this splits.zipIdx ([], added) (fun x hx => List.fst_mem_of_mem_zipIdx hx) (by intro e he; cases he) e he
+
+theorem locLoop_good (r : Repo) (bi : Nat) (splits : List Split) (max : Nat) :
+    ∀ (fuel : Nat) (height prevHeight delta : Int) (res : List (HH × Bool)) (added : List Nat),
+      (∀ e ∈ res, GoodEntry r bi splits e) →
+      ∀ e ∈ (locLoop r bi splits max fuel height prevHeight delta res added).1, GoodEntry r bi splits e := by
+  intro fuel
+  induction fuel with
+  | zero => intro height prevHeight delta res added h; simpa [locLoop] using h
+  | succ fuel ih =>
+    intro height prevHeight delta res added hres
+    unfold locLoop
+    generalize hp : (if prevHeight ≠ -1 then splitsBetween splits added height prevHeight else ([], added)) = p
+    have hp1 : ∀ x ∈ p.1, ∃ s ∈ splits, s.height = x.1 ∧ s.before = x.2 := by
+      rw [← hp]
+      split
+      · exact splitsBetween_mem splits added height prevHeight
+      · intro x hx; cases hx
+    obtain ⟨ins, added'⟩ := p
+    simp only
+    have hins : ∀ e ∈ res ++ ins.map (fun e => (e, false)), GoodEntry r bi splits e := by
+      intro e he
+      simp only [List.mem_append, List.mem_map] at he
+      rcases he with he | ⟨x, hx, rfl⟩
+      · exact hres e he
+      · obtain ⟨s, hs, h1, h2⟩ := hp1 x hx
+        exact ⟨s, hs, h1, h2⟩
+    cases hat : r.at bi height with
+    | none => exact hins
+    | some d =>
+      simp only
+      have hnew : ∀ e ∈ (res ++ ins.map (fun e => (e, false))) ++ [((height, d.hdr.id), true)], GoodEntry r bi splits e := by
+        intro e he
+        simp only [List.mem_append, List.mem_singleton] at he
+        rcases he with he | rfl
+        · exact hins e (by simpa using he)
+        · exact Or.inl ⟨d, hat, rfl⟩
+      split
+      · exact hnew
+      · split
+        · exact hnew
+        · exact ih _ _ _ _ _ hnew
+
+/-- **C19 (membership, branch locator), every state**: every entry is a header of the branch's chain at the
+    stated height, or a fork point of the split table. -/
+theorem C19_branch_membership (r : Repo) (bi : Nat) (splits : List Split) (delta : Int) (max : Nat) :
+    ∀ e ∈ branchLocatorTagged r bi splits delta max, GoodEntry r bi splits e := by
+  unfold branchLocatorTagged
+  simp only
+  split
+  · rename_i h0
+    cases hl : (r.br bi).last? with
+    | none => intro e he; cases he
+    | some l =>
+      intro e he
+      simp only [List.mem_singleton] at he
+      subst he
+      exact Or.inr ⟨rfl, h0, l, hl, rfl⟩
+  · intro e he
+    simp only [List.mem_append] at he
+    rcases he with he | he
+    · exact locLoop_good r bi splits max _ _ _ _ [] [] (by intro e he; cases he) e he
+    · -- the split fork points below the walk
+      have : ∀ (l : List (Split × Nat)) (acc : List (HH × Bool)) (added : List Nat) (hh : Int),
+          (∀ x ∈ l, x.1 ∈ splits) → (∀ e ∈ acc, GoodEntry r bi splits e) →
+          ∀ e ∈ l.foldl (fun (acc : List (HH × Bool)) (x : Split × Nat) =>
+            if !added.contains x.2 && hh > x.1.height then acc ++ [((x.1.height, x.1.before), false)] else acc) acc,
+            GoodEntry r bi splits e := by
+        intro l
+        induction l with
+        | nil => intro acc _ _ _ h; exact h
+        | cons x rest ih =>
+          intro acc added hh hl hacc
+          simp only [List.foldl_cons]
+          apply ih _ _ _ (fun y hy => hl y (List.mem_cons_of_mem _ hy))
+          split
+          · intro e he
+            simp only [List.mem_append, List.mem_singleton] at he
+            rcases he with he | rfl
+            · exact hacc e he
+            · exact ⟨x.1, hl x (List.mem_cons_self ..), rfl, rfl⟩
+          · exact hacc
+      exact this splits.zipIdx [] _ _ (fun x hx => List.fst_mem_of_mem_zipIdx hx) (by intro e he; cases he) e he
+
+theorem sortHH_mem (l : List HH) (x : HH) : x ∈ sortHH l ↔ x ∈ l := by
+  unfold sortHH
+  have hins : ∀ (y : HH) (acc : List HH) (z : HH), z ∈ sortHH.ins y acc ↔ z = y ∨ z ∈ acc := by
+    intro y acc
+    induction acc with
+    | nil => intro z; simp [sortHH.ins]
+    | cons a rest ih =>
+      intro z
+      simp only [sortHH.ins]
+      split
+      · simp
+      · simp only [List.mem_cons, ih z]
+        constructor
+        · rintro (h | h | h)
+          · exact Or.inr (Or.inl h)
+          · exact Or.inl h
+          · exact Or.inr (Or.inr h)
+        · rintro (h | h | h)
+          · exact Or.inr (Or.inl h)
+          · exact Or.inl h
+          · exact Or.inr (Or.inr h)
+  have : ∀ (l acc : List HH), x ∈ l.foldl (fun acc y => sortHH.ins y acc) acc ↔ x ∈ l ∨ x ∈ acc := by
+    intro l
+    induction l with
+    | nil => intro acc; simp
+    | cons a rest ih =>
+      intro acc
+      simp only [List.foldl_cons, ih, hins, List.mem_cons]
+      constructor
+      · rintro (h | h | h)
+        · exact Or.inl (Or.inr h)
+        · exact Or.inl (Or.inl h)
+        · exact Or.inr h
+      · rintro ((h | h) | h)
+        · exact Or.inr (Or.inl h)
+        · exact Or.inl h
+        · exact Or.inr (Or.inr h)
+  rw [this]; simp
+
+/-- **C19 (membership), every state and every maximum**: every hash of the locator is a header the best
+    chain holds at some height (or the tip of a height-0 chain), a fork point of the configured split table,
+    or the lowest held header of a tracked side branch. -/
+theorem C19_membership (r : Repo) (max : Nat) (x : Nat) (hx : x ∈ locator r max) :
+    (∃ h d, r.at r.longest h = some d ∧ d.hdr.id = x) ∨
+    ((r.br r.longest).height = 0 ∧ ∃ l, (r.br r.longest).last? = some l ∧ l.hdr.id = x) ∨
+    (∃ s ∈ r.cfg.splits, s.before = x) ∨
+    (∃ bi ∈ r.branches, bi ≠ r.longest ∧ ∃ d, r.at bi (r.br bi).prunedLowest = some d ∧ d.hdr.id = x) := by
+  unfold locator at hx
+  rw [C19_dedupe_keeps] at hx
+  obtain ⟨e, he, rfl⟩ := List.mem_map.mp hx
+  rw [sortHH_mem] at he
+  simp only [List.mem_append] at he
+  rcases he with he | he
+  · unfold branchLocator at he
+    obtain ⟨t, ht, rfl⟩ := List.mem_map.mp he
+    have hg := C19_branch_membership r r.longest r.cfg.splits _ max t ht
+    obtain ⟨⟨h, id⟩, tag⟩ := t
+    cases tag with
+    | true =>
+      rcases hg with ⟨d, hd, hid⟩ | ⟨_, h0, l, hl, hid⟩
+      · exact Or.inl ⟨h, d, hd, hid⟩
+      · exact Or.inr (Or.inl ⟨h0, l, hl, hid⟩)
+    | false =>
+      obtain ⟨s, hs, _, hb⟩ := hg
+      exact Or.inr (Or.inr (Or.inl ⟨s, hs, hb⟩))
+  · obtain ⟨bi, hbi, hfm⟩ := List.mem_filterMap.mp he
+    split at hfm
+    · cases hfm
+    · rename_i hne
+      cases hat : r.at bi (r.br bi).prunedLowest with
+      | none => rw [hat] at hfm; cases hfm
+      | some d =>
+        rw [hat] at hfm
+        simp only [Option.map_some, Option.some.injEq] at hfm
+        subst hfm
+        exact Or.inr (Or.inr (Or.inr ⟨bi, hbi, hne, d, hat, rfl⟩))
+
+/-! ### newest first -/
+
+/-- the heights of the chain entries of a tagged locator, in order. -/
+def chainHeights (l : List (HH × Bool)) : List Int := (l.filter (·.2)).map (·.1.1)
+
+theorem chainHeights_append (a b : List (HH × Bool)) : chainHeights (a ++ b) = chainHeights a ++ chainHeights b := by
+  simp [chainHeights]
+
+theorem chainHeights_splits (l : List HH) : chainHeights (l.map (fun e => (e, false))) = [] := by
+  induction l with
+  | nil => rfl
+  | cons a t ih => simpa [chainHeights, List.filter_cons] using ih
+
+theorem locLoop_desc (r : Repo) (bi : Nat) (splits : List Split) (max : Nat) :
+    ∀ (fuel : Nat) (height prevHeight delta : Int) (res : List (HH × Bool)) (added : List Nat), 0 < delta →
+      (∀ x ∈ chainHeights res, height < x) → (chainHeights res).Pairwise (· > ·) →
+      (chainHeights (locLoop r bi splits max fuel height prevHeight delta res added).1).Pairwise (· > ·) := by
+  intro fuel
+  induction fuel with
+  | zero => intro height prevHeight delta res added _ _ h; simpa [locLoop] using h
+  | succ fuel ih =>
+    intro height prevHeight delta res added hd habove hpw
+    unfold locLoop
+    generalize (if prevHeight ≠ -1 then splitsBetween splits added height prevHeight else ([], added)) = p
+    obtain ⟨ins, added'⟩ := p
+    simp only
+    have h1 : chainHeights (res ++ ins.map (fun e => (e, false))) = chainHeights res := by
+      rw [chainHeights_append, chainHeights_splits, List.append_nil]
+    cases hat : r.at bi height with
+    | none => simp only; rw [h1]; exact hpw
+    | some d =>
+      simp only
+      have h2 : chainHeights ((res ++ ins.map (fun e => (e, false))) ++ [((height, d.hdr.id), true)]) = chainHeights res ++ [height] := by
+        rw [chainHeights_append, h1]; rfl
+      have hpw2 : (chainHeights res ++ [height]).Pairwise (· > ·) := by
+        rw [List.pairwise_append]
+        exact ⟨hpw, by simp, fun a ha b hb => by simp at hb; subst hb; exact habove a ha⟩
+      split
+      · rw [h2]; exact hpw2
+      · split
+        · rw [h2]; exact hpw2
+        · apply ih _ _ _ _ _ (by omega)
+          · rw [h2]
+            intro x hx
+            simp only [List.mem_append, List.mem_singleton] at hx
+            rcases hx with hx | rfl
+            · have := habove x hx; omega
+            · omega
+          · rw [h2]; exact hpw2
+
+/-- **C19 (newest first)**: the best-chain hashes of a branch locator come in strictly descending height, for
+    every state and every positive step. -/
+theorem C19_newest_first (r : Repo) (bi : Nat) (splits : List Split) (delta : Int) (hd : 0 < delta) (max : Nat) :
+    (chainHeights (branchLocatorTagged r bi splits delta max)).Pairwise (· > ·) := by
+  unfold branchLocatorTagged
+  simp only
+  split
+  · cases (r.br bi).last? with
+    | none => simp [chainHeights]
+    | some l => simp [chainHeights]
+  · rw [chainHeights_append]
+    have htail : ∀ (l : List (Split × Nat)) (acc : List (HH × Bool)) (added : List Nat) (hh : Int), chainHeights acc = [] →
+        chainHeights (l.foldl (fun (acc : List (HH × Bool)) (x : Split × Nat) =>
+          if !added.contains x.2 && hh > x.1.height then acc ++ [((x.1.height, x.1.before), false)] else acc) acc) = [] := by
+      intro l
+      induction l with
+      | nil => intro acc _ _ h; exact h
+      | cons x rest ih =>
+        intro acc added hh h
+        simp only [List.foldl_cons]
+        apply ih
+        split
+        · rw [chainHeights_append, h]; rfl
+        · exact h
+    have ht := htail splits.zipIdx [] (locLoop r bi splits max ((r.br bi).height.toNat + 2) ((r.br bi).height - 1) (-1) delta [] []).2.1
+      (locLoop r bi splits max ((r.br bi).height.toNat + 2) ((r.br bi).height - 1) (-1) delta [] []).2.2 rfl
+    rw [show chainHeights _ = [] from ht, List.append_nil]
+    exact locLoop_desc r bi splits max _ _ _ _ [] [] hd (by intro x hx; cases hx) List.Pairwise.nil
+
 end BRV.Repo
